@@ -150,7 +150,7 @@ func writeType(buf *bytes.Buffer, typ Type, qf Qualifier, visited []Type) {
 			break
 		}
 		if t == wzUniverseAny.Type() {
-			buf.WriteString(token.K_空)
+			buf.WriteString(token.K_皮囊)
 			break
 		}
 		// We write the source-level methods and embedded types rather
